@@ -1,7 +1,9 @@
 // C08 — connection lifecycle is balanced: nothing leaks, nothing is released twice.
 // One case = one live endpoint (1-3 workers) and several rounds of scripted raw connections
 // (complete / partial requests, orderly close, half-close, reset, abort with a large response
-// pending, silence until the idle time-out).  The handler records onConnection / onRequest /
+// pending, silence until the idle time-out, gone before an answer that another thread writes in
+// several flushes while the connection's worker is busy).  SIGPIPE keeps its default action in the
+// harness process.  The handler records onConnection / onRequest /
 // onDisconnection per peer id.  Oracle: every peer's callback word is connect request*
 // disconnect (exactly one of each end), every Peer object is released, the descriptor count
 // returns to the idle baseline, and a fresh connection is still served.
@@ -26,6 +28,7 @@ namespace
         std::mutex m;
         std::map<size_t, PeerLog> peers;
         int total_connects = 0, total_disconnects = 0;
+        std::vector<std::thread> async; // handlers that answer from their own thread (joined before the endpoint stops)
     };
 
     class Handler : public Http::Handler
@@ -67,7 +70,39 @@ namespace
                         ++l.requests_after_disconnect;
                 }
             }
-            if (req.resource() == "/big")
+            const std::string& res = req.resource();
+            if (res.rfind("/async/", 0) == 0)
+            {
+                // answered later, from another thread, as a stream of several flushes - the way an
+                // application answers when the result comes from a worker pool
+                int delay = atoi(res.c_str() + 7);
+                size_t p  = res.find('/', 7);
+                int parts = p == std::string::npos ? 2 : atoi(res.c_str() + p + 1);
+                std::lock_guard<std::mutex> g(sh->m);
+                sh->async.emplace_back([delay, parts](Http::ResponseWriter w) {
+                    net::sleep_ms(delay);
+                    try
+                    {
+                        auto st = w.stream(Http::Code::Ok);
+                        for (int i = 0; i < parts; ++i)
+                            st << "part " << std::to_string(i).c_str() << Http::flush;
+                        st << Http::ends;
+                    }
+                    catch (const std::exception&)
+                    {
+                        // the peer is gone: an error here is the expected outcome
+                    }
+                },
+                                       std::move(w));
+                return;
+            }
+            if (res.rfind("/busy/", 0) == 0)
+            {
+                net::sleep_ms(atoi(res.c_str() + 6)); // keeps this connection's worker from looking at its sockets
+                w.send(Http::Code::Ok, "ok");
+                return;
+            }
+            if (res == "/big")
                 w.send(Http::Code::Ok, std::string(400 * 1024, 'b'));
             else
                 w.send(Http::Code::Ok, "ok");
@@ -79,8 +114,9 @@ namespace
                HalfClose,
                Reset,
                AbortBigResponse,
-               Silence };
-    const char* END_NAMES[] = { "close", "shutdown(WR)+read-to-EOF", "RST", "abort-with-response-pending", "silence-until-timeout" };
+               Silence,
+               GoneBeforeAsyncAnswer };
+    const char* END_NAMES[] = { "close", "shutdown(WR)+read-to-EOF", "RST", "abort-with-response-pending", "silence-until-timeout", "gone-before-async-answer" };
 
     struct ConnScript
     {
@@ -88,6 +124,10 @@ namespace
         bool partial               = false;
         size_t partial_cut         = 0;
         End end                    = OrderlyClose;
+        // GoneBeforeAsyncAnswer: the answer is written answer_ms after the request by another thread in
+        // `parts` flushes; this connection's worker is busy for busy_ms; the client leaves at gone_ms
+        int answer_ms = 30, parts = 2, busy_ms = 80, gone_ms = 15;
+        bool gone_by_reset = false;
         std::string fail;
     };
 
@@ -146,6 +186,17 @@ namespace
             net::sleep_ms(30); // the server is now blocked writing 400 KiB into a 4 KiB window
             net::reset_close(fd);
             break;
+        case GoneBeforeAsyncAnswer: {
+            net::send_all(fd, "GET /async/" + std::to_string(s.answer_ms) + "/" + std::to_string(s.parts) + " HTTP/1.1\r\nHost: x\r\n\r\n");
+            net::sleep_ms(3);
+            net::send_all(fd, "GET /busy/" + std::to_string(s.busy_ms) + " HTTP/1.1\r\nHost: x\r\n\r\n");
+            net::sleep_ms(std::max(1, s.gone_ms - 3));
+            if (s.gone_by_reset)
+                net::reset_close(fd);
+            else
+                ::close(fd); // nothing was read: the kernel answers the server's next write with RST
+            break;
+        }
         case Silence: {
             // say nothing more; the server must answer 408 and close (time-outs are 1 s in such cases)
             std::string rest;
@@ -203,6 +254,31 @@ namespace verif
                     desc += std::to_string(s.complete_requests) + "req" + (s.partial ? "+partial@" + std::to_string(s.partial_cut) : "") + "/" + END_NAMES[s.end] + " ";
             }
             desc += "| ";
+        }
+        {
+            // decoded after everything else, so that inputs saved before this was added keep their meaning
+            unsigned na = getenv("VERIF_C08_NO_ASYNC") ? 0 : c.pick(4); // (experiment switch)
+            if (na)
+            {
+                std::vector<ConnScript> extra(na);
+                for (auto& s : extra)
+                {
+                    s.end           = GoneBeforeAsyncAnswer;
+                    s.answer_ms     = 20 + int(c.pick(4)) * 10;        // 20..50
+                    s.parts         = 1 + int(c.pick(4));              // 1..4 flushes
+                    s.busy_ms       = s.answer_ms + 30 + int(c.pick(3)) * 20;
+                    s.gone_ms       = c.coin(200) ? 5 + int(c.pick(3)) * 5 : s.answer_ms + 20; // mostly before the answer, sometimes after it
+                    s.gone_by_reset = c.coin(80);
+                    kinds.insert(int(s.end));
+                    inflight = true;
+                    if (desc.size() < 600)
+                        desc += std::string("async-answer@") + std::to_string(s.answer_ms) + "ms x" + std::to_string(s.parts) + " busy " + std::to_string(s.busy_ms) + "ms gone@" + std::to_string(s.gone_ms) + "ms"
+                            + (s.gone_by_reset ? "(RST) " : " ");
+                }
+                desc += "| ";
+                plan.push_back(extra);
+                ++rounds;
+            }
         }
         std::string cfg = "workers=" + std::to_string(workers) + (timeouts ? " timeouts=1s" : "") + " rounds=" + std::to_string(rounds);
         rep.label(timeouts ? "with-idle-timeouts" : "no-timeouts");
@@ -317,6 +393,15 @@ namespace verif
                     if (!f.fail.empty())
                         verdict = Verdict::fail("C08/timing/not-serving-afterwards", cfg + ": a fresh connection is not served: " + f.fail + " :: " + desc);
                 }
+            }
+            {
+                std::vector<std::thread> th;
+                {
+                    std::lock_guard<std::mutex> g(sh->m);
+                    th.swap(sh->async);
+                }
+                for (auto& t : th)
+                    t.join();
             }
             srv.stop();
         }
